@@ -27,8 +27,8 @@ ASSUMPTIONS = ["Rust semantics of Vec/usize as modelled (checked indexing, debug
                "underflow/overflow), searched (1e-11 normwise) on the IEEE instance that is tied to the implementation"]
 UNPROVED = ["backward stability of the IEEE binary64 / Complex<f64> instance itself: thomas_backward_error and thomas_dominant_backward_stable are proved in the "
             "standard model of floating-point arithmetic (arbitrary real operations with relative error <= u per operation, no underflow/overflow) for the same "
-            "Gallina function tsolve; that binary64 (u = 2^-53) satisfies that model away from underflow/overflow is textbook and not re-proved here, and the "
-            "complex operators are not covered by it.  The IEEE instance is tied bit-for-bit to the implementation and searched",
+            "Gallina function tsolve; at binary64 (Flocq) the same bounds are proved for tsolve (A := AF): thomas_backward_error_float under finite x, finite pivots and no subnormal product, and thomas_dominant_float with hypotheses on the DATA only (finite entries, 2^-300 <= |b_i| <= 2^300, off-diagonals 0 or >= 2^-300, |r_i| <= 2^300, 2(|a_i|+|c_i|) <= |b_i|: tsolve answers, x finite, (T+dT)x = r+dr); a finite answer can hide an overflowed pivot (sub=[-2^1023], main=[1;2^1023], sup=[1], r=[1;1] returns Ok [1;0]), so finite pivots are a genuine hypothesis of the general theorem; NOT covered: data outside 2^+-300 (the search's scaled family reaches 2^+-400), and the "
+            "complex operators.  The IEEE instance is tied bit-for-bit to the implementation and searched",
             "thomas_backward_error perturbs the main diagonal by b_i*eb + a_i*gl_i*eg where gl_i is the COMPUTED multiplier of row i, which that theorem does not bound "
             "(it is the standard componentwise statement |dT| <= f(u)|L||U|); the bound |gl_i| <= 1, hence |dT| <= 14u|T| rowwise, is proved for diagonally dominant systems "
             "only (thomas_dominant_solved_and_stable, thomas_dominant_backward_stable)",
